@@ -27,6 +27,15 @@ impl ReceivedPdu {
                 r == Err::<ReceivedPdu, Error>(Error::WorkingCounter { expected: expected->Some_0, received: self.wkc_v() }),
     { unimplemented!() }
 
+    /// contract proved on the real pointer code by the Kani harness wkc::rx_trim_front
+    #[verifier::external_body]
+    pub fn trim_front(&mut self, ct: usize)
+        ensures
+            final(self).working_counter == old(self).working_counter,
+            final(self).data() == old(self).data().subrange(
+                if ct < old(self).data().len() { ct as int } else { old(self).data().len() as int }, old(self).data().len() as int),
+    { unimplemented!() }
+
     #[verifier::external_body]
     pub fn as_slice(&self) -> (r: &[u8])
         ensures r@ == self.data()
